@@ -36,6 +36,11 @@ Proof. unfold hb; intros H1 H2; specialize (H1 (wt m)); lia. Qed.
 (* ---------- invariant ---------- *)
 Definition T (s : st) (t : nat) := getth s t.
 
+(* the messages newer than position q that neither thread u nor any thread reading through a handle lent by u has seen *)
+Definition unseen (s : st) (u q : nat) : Prop :=
+  forall m', In m' (firstn q (msgs s)) ->
+    ~ hb m' (clk (T s u)) /\ forall c, lend (T s c) = S u -> ~ hb m' (clk (T s c)).
+
 Record Inv (s : st) : Prop := {
   J1 : live s = true -> msgs s <> [] /\ val (hdm s) = total (ths s);
   J2 : forall t, refs (T s t) > 0 -> cle (Wc s) (clk (T s t));
@@ -53,7 +58,7 @@ Record Inv (s : st) : Prop := {
          cle (Wc s) (clk (T s t)) /\ cle (Rc s) (clk (T s t));
   J6 : live s = false -> total (ths s) = 0 /\ forall t, mustfree (T s t) = false /\ excl (T s t) = false;
   J7 : forall t p m, refs (T s t) > 0 -> p > 0 -> nth_error (msgs s) p = Some m ->
-         (forall m', In m' (firstn p (msgs s)) -> ~ hb m' (clk (T s t))) ->
+         unseen s t p ->
          refs (T s t) + 1 <= val m;
   J8 : forall t, started (T s t) = false -> refs (T s t) = 0 /\ mustfree (T s t) = false /\ excl (T s t) = false;
   J9 : live s = true -> total (ths s) = 0 -> exists t, mustfree (T s t) = true;
@@ -160,4 +165,8 @@ Proof.
     rewrite (borrower_live s t p I El). cbn [negb].
     destruct (J10 s I t p El) as (_ & _ & _ & _ & _ & HW). apply cleb_spec in HW. rewrite HW. cbn. discriminate.
   - (* join a borrower *) destruct (_ || _ || _ || _ || _); discriminate.
+  - (* clone through a borrowed handle *)
+    destruct (Nat.eqb_spec (lend (T s t)) 0) as [|Hl0]; [discriminate|].
+    destruct (lend (T s t)) as [|p] eqn:El; [contradiction|].
+    rewrite (borrower_live s t p I El). cbn [negb]. discriminate.
 Qed.
